@@ -37,8 +37,29 @@ def rule_state_before_callout(rep: Report, rule: str, root: Fn) -> int:
     distinct_until_changed, element_at, find)."""
     obs = root.params[0] if root.params else "observer"
     n = 0
+    # terminal handlers of the operator's *own source*: once the source has terminated it cannot re-enter with another
+    # element, so the order of a final flush and its bookkeeping is immaterial there
+    from ..engines.typestate import source_names
+    from ..model import is_subscribe_call, resolve_callable, subscribe_slots
+    srcs = set(source_names(root))
+    src_terminal = set()
     for g in root.walk():
-        if not g.is_func or g is root:
+        if g.is_func:
+            for s in sites(g):
+                if is_subscribe_call(s.node):
+                    base = s.node.func.value
+                    while isinstance(base, ast.Call) and isinstance(base.func, ast.Attribute):
+                        base = base.func.value
+                    if isinstance(base, ast.Name) and base.id in srcs:
+                        for k, v in subscribe_slots(s.node).items():
+                            if k in ("on_error", "on_completed") and v is not None:
+                                t = resolve_callable(g, v)
+                                while t.kind == "sync" and t.inner is not None:
+                                    t = t.inner
+                                if t.kind == "fn":
+                                    src_terminal.add(t.fn)
+    for g in root.walk():
+        if not g.is_func or g is root or g in src_terminal:
             continue
         calls = downstream_next_calls(g, obs)
         if not calls:
